@@ -195,6 +195,31 @@ def c14_scenarios(scripts, seed, quick, call, scn):
                   {"do": "advance", "ms": 250},
                   call(2, op="Pull", sub=S1, max=10, ri=True)]
         finish(scn("c14-orphan-del-%d" % k, steps, seed=seed + k), push=(k % 3 == 2))
+    # a push subscription that outlives its topic keeps being pushed what it holds: the endpoint
+    # refuses at first, the topic is deleted, then the endpoint accepts
+    for k in range(2 if quick else 6):
+        steps = [{"do": "endpoint", "script": {"pa": [500, 500, 500, 500, 200], "pb": ["close", 503, 204]}, "default": [200]},
+                 call(1, op="CreateTopic", name=T1), call(1, op="CreateSub", name=S1, topic=T1, ack=10, push="$EP"),
+                 call(1, op="Publish", topic=T1, msgs=[{"p": "pa"}, {"p": "pb"}]),
+                 {"do": "waithttp", "n": 1 + k % 3, "ms": 4000},
+                 call(1, op="DeleteTopic", name=T1),
+                 {"do": "waithttp", "n": 8, "ms": 4000}, {"do": "advance", "ms": 150},
+                 call(1, op="GetSub", name=S1)]
+        finish(scn("c14-orphan-push-%d" % k, steps, seed=seed + k))
+    # endpoints that pass the "starts with http" test but are no URLs: the subscription may never
+    # be pushed to, but neither the push loop nor the server may die of it (C17)
+    weird = ["http://", "https://", "httpfoo", "http://exa mple", "http:///x", "http://[::1", "HTTP://127.0.0.1:9/x", "http://127.0.0.1:99999/"]
+    steps = [{"do": "endpoint", "script": {}, "default": [200]},
+             call(1, op="CreateTopic", name=T1), call(1, op="CreateSub", name=S1, topic=T1, ack=10, push="$EP")]
+    for j, w in enumerate(weird if not quick else weird[:5]):
+        steps.append(call(2, op="CreateSub", name="projects/p1/subscriptions/s%d" % (j + 10), topic=T1, ack=10, push=w))
+    steps += [call(1, op="Publish", topic=T1, msgs=[{"p": "pa"}]), {"do": "waithttp", "n": 1, "ms": 4000}, {"do": "advance", "ms": 200},
+              call(1, op="Publish", topic=T1, msgs=[{"p": "pb"}]), {"do": "waithttp", "n": 2, "ms": 4000}, {"do": "advance", "ms": 100},
+              call(1, op="GetTopic", name=T1)]
+    s3 = scn("c14-weird-endpoints", steps, seed=seed)
+    for j in range(len(weird)):
+        s3["meta"]["proj"]["projects/p1/subscriptions/s%d" % (j + 10)] = "p1"
+    finish(s3, push=False)
     # an endpoint on which nothing listens, and an unsupported endpoint
     steps = [{"do": "endpoint", "script": {}, "default": [200]},
              call(1, op="CreateTopic", name=T1), call(1, op="CreateSub", name=S1, topic=T1, ack=10, push="$DEAD"),
